@@ -91,8 +91,10 @@ def isFlatOwner : B → Bool
   | .bytes _ _ _ _ _ | .bytesView _ _ _ _ _ | .dictionary _ _ _ _ => true
   | _ => false
 
+/-- the scalar calls (`serialize_unit_struct` is none any more: since repo fix 42e4640 its default forwards to
+`serialize_unit`, the null path — `pushNone`, which touches no capacity-limited counter) -/
 def isScalarCall : SVal → Bool
-  | .bool _ | .int _ _ | .f32 _ | .f64 _ | .char _ | .str _ | .unitStruct _ | .bytes _ => true
+  | .bool _ | .int _ _ | .f32 _ | .f64 _ | .char _ | .str _ | .bytes _ => true
   | _ => false
 
 /-- **C18_capacity_blame.**
